@@ -65,6 +65,11 @@ def gen_desc(rng, n_classes, namespaces=('urn:t',), **kw):
     between classes (an XmlAttribute 'id' on a class and on the class of one of its members),
     and required members"""
     desc = U.gen_universe(rng, n_classes=n_classes, namespaces=namespaces, **kw)
+    # universe.gen_universe keeps a subclass in its base's namespace; C01 needs chains that cross namespaces
+    # (an inherited member is written in the namespace of the class that declares it)
+    for c in desc['classes']:
+        if c['parent'] is not None and rng.random() < 0.6:
+            c['ns'] = rng.choice(('urn:t', 'urn:u', 'urn:v'))
     for cid, c in enumerate(desc['classes']):
         for f in c['fields']:
             if rng.random() < 0.3:
